@@ -1,6 +1,7 @@
 import Ypv.Model.Basic
 import Ypv.Model.Path
 import Ypv.Model.Py
+import Ypv.Model.Keyword
 /-!
 # The evaluator: `Processor._get_required_nodes`, `_get_optional_nodes` (read behaviour),
 `_get_nodes_by_path_segment` and its handlers, `exists`, `get_nodes`
@@ -15,7 +16,13 @@ proposed in `fixes/C01-*.patch`, `fixes/C15-*.patch`, `fixes/C02-*.patch`* (see 
   them behind the guards the (fixed) code has, and `Props/C15.lean` proves the guards suffice.
 * The scalar comparison (`Searches.search_matches`) is a parameter `mt`, the evaluation of a search
   attribute that is itself a YAML Path (`YAMLPath(attr)` evaluated by `_get_required_nodes`) is a
-  parameter `dsc`; every theorem holds for every `mt` and `dsc`.
+  parameter `dsc`; every theorem holds for every `mt` and `dsc`.  `W1.mtCompare rx orc` is the
+  matcher built from the comparison model of `Model/Compare.lean` (scalar haystacks), with an
+  explicit oracle `orc` for container haystacks and the fenced literal classes.
+* KEYWORD_SEARCH segments are evaluated by `kwSearch` of `Model/Keyword.lean` (`kwStep`); the
+  document root `rt` is a parameter of the dispatcher because `[parent(n)]` returns an ancestor
+  *node*, which the Python code finds in the `ancestry` stack and the model at the ancestor's
+  address below `rt`.
 -/
 namespace Ypv
 
@@ -235,6 +242,16 @@ def ESeg.ofSeg : Seg → ESeg
 
 def ESeg.isTraverse : ESeg → Bool
   | .traverse => true
+  | _ => false
+
+def ESeg.isKeyword : ESeg → Bool
+  | .keyword .. => true
+  | _ => false
+
+/-- The keyword segments that group members by value in a Python `dict`: `unique`, `distinct`. -/
+def ESeg.grouping : ESeg → Bool
+  | .keyword _ .unique _ => true
+  | .keyword _ .distinct _ => true
   | _ => false
 
 /-- Segment kinds `_get_optional_nodes` creates when nothing matches. -/
@@ -501,6 +518,74 @@ def leafAt : Node → Ctx → Gen NC
   | .set _ ms, c => Gen.ofList (setKids c ms)
   | _, _ => Gen.nil
 
+/-! ## KEYWORD_SEARCH -/
+
+/-- `NodeCoords.ancestry[-k]`…: the coordinates of the ancestor `k` levels up (what
+`KeywordSearches.parent` leaves after popping `k` entries of `ancestry` and `k` segments of
+`translated_path`; `parent` / `parentref` are those of the last remaining ancestry entry). -/
+def ctxUp (c : Ctx) (k : Nat) : Ctx :=
+  let anc := c.anc.take (c.anc.length - k)
+  { addr := c.addr.take (c.addr.length - k),
+    parent := anc.getLast?.map (·.1), pref := anc.getLast?.map (·.2),
+    anc := anc, path := c.path.take (c.path.length - k) }
+
+/-- The node `name()` yields: `parentref` itself (a key, a set member, a list index as it was
+written — possibly negative —, `None` at the root). -/
+def prefNode : Option PRef → Node
+  | some (.key k) => k.toNode
+  | some (.member k) => k.toNode
+  | some (.idx i) => .scalar none (.int i)
+  | none => .scalar none .null
+
+/-- The child of `n` under a reference, with the coordinates the keyword searches give it
+(`NodeCoords(ele, data, idx, translated_path + "[idx]", ancestry + [(data, idx)])`, and the same
+with an escaped key). -/
+def kwChild (n : Node) (c : Ctx) : Ref → Option NC
+  | .idx i =>
+    match n with
+    | .seq _ items => items[i]?.map (fun x => (x, c.child (.idx i) (.idx i) (idxSection i)))
+    | _ => none
+  | .key k =>
+    match n with
+    | .map _ es => (es.lookup k).map (fun v => (v, c.child (.key k) (.key k) (escSection k.text)))
+    | _ => none
+  | .member _ => none
+
+/-- The node and coordinates at an address `kwSearch` returned for the node `n` at `c`: the node
+itself, one of its children, or an ancestor (found at its address below the document root `rt`);
+any other address is refused. -/
+def kwResolve (rt n : Node) (c : Ctx) (a : Addr) : Option NC :=
+  if a = c.addr then some (n, c)
+  else if a.length < c.addr.length then
+    if a = c.addr.take a.length then
+      match rt.get? a with
+      | some m => some (m, ctxUp c (c.addr.length - a.length))
+      | none => none
+    else none
+  else
+    match a.getLast? with
+    | some r => if a = c.addr ++ [r] then kwChild n c r else none
+    | none => none
+
+def kwResolveAll (rt n : Node) (c : Ctx) : List Addr → Option (List NC)
+  | [] => some []
+  | a :: as =>
+    match kwResolve rt n c a, kwResolveAll rt n c as with
+    | some x, some xs => some (x :: xs)
+    | _, _ => none
+
+/-- `_get_nodes_by_keyword_search` = `KeywordSearches.search_matches(terms, data, …)`: the results
+of `kwSearch` (addresses) as nodes with coordinates.  All keyword searches finish their
+computation — and raise, if they raise — before their first result. -/
+def kwStep (rt : Node) (inv : Bool) (k : Keyword) (params : Str) (n : Node) (c : Ctx) : Gen NC :=
+  match kwSearch n c.addr inv k params with
+  | .error e => Gen.fail e
+  | .ok (.name _) => Gen.one (prefNode c.pref, c)
+  | .ok (.nodes as) =>
+    match kwResolveAll rt n c as with
+    | some l => Gen.ofList l
+    | none => Gen.fail .outOfModel
+
 /-! ## The dispatcher -/
 
 /-- The probe of a following segment made by `*` and `**`
@@ -509,7 +594,7 @@ refused. -/
 def recursionGuard (prevTrav : Bool) (nxt : ESeg) (g : Gen Res) : Gen Res :=
   if prevTrav && nxt.isTraverse then Gen.fail (.ypath .recursion) else g
 
-variable (mt : Matcher) (dsc : Desc)
+variable (mt : Matcher) (dsc : Desc) (rt : Node)
 
 /-- `_get_nodes_by_path_segment`: the nodes one segment selects at a node; `rest` are the
 following segments (`*` and `**` probe the next one), `tl` is `traverse_lists`. -/
@@ -525,7 +610,7 @@ def stepSeg : (seg : ESeg) → (rest : List ESeg) → (tl : Bool) → Node → C
   | .traverse, [], _, n, c => (walk leafAt n c).map Res.real
   | .traverse, nxt :: rest', _, n, c =>
       (walk (fun m cm => Gen.ifAny (recursionGuard true nxt (stepSeg nxt rest' false m cm)) (m, cm)) n c).map Res.real
-  | .keyword .., _, _, _, _ => Gen.fail .outOfModel
+  | .keyword inv k p, _, _, n, c => (kwStep rt inv k p n c).map Res.real
   | .collector .., _, _, _, _ => Gen.fail .outOfModel
   | .unknown, _, _, _, _ => Gen.fail .outOfModel
 
@@ -540,20 +625,20 @@ def stepVirt (seg : ESeg) (items : List NC) : Gen Res :=
   | _ => Gen.fail .outOfModel
 
 def stepRes (seg : ESeg) (rest : List ESeg) : Res → Gen Res
-  | .real (n, c) => stepSeg mt dsc seg rest true n c
+  | .real (n, c) => stepSeg mt dsc rt seg rest true n c
   | .virt items => stepVirt seg items
 
 /-- `_get_required_nodes` -/
 def required : List ESeg → Res → Gen Res
   | [], r => Gen.one r
-  | s :: rest, r => Gen.bind (stepRes mt dsc s rest r) (required rest)
+  | s :: rest, r => Gen.bind (stepRes mt dsc rt s rest r) (required rest)
 
 /-- `_get_optional_nodes`, read behaviour: where the code would create a missing node the model
 stops with `outOfModel` (creation belongs to another property). -/
 def optional : List ESeg → Res → Gen Res
   | [], r => Gen.one r
   | s :: rest, r =>
-    let g := stepRes mt dsc s rest r
+    let g := stepRes mt dsc rt s rest r
     Gen.append
       (Gen.bind g (fun r' => if r'.isNullNode then Gen.one r' else optional rest r'))
       (if g.1.isEmpty && s.creates then Gen.fail .outOfModel else Gen.nil)
@@ -561,19 +646,19 @@ def optional : List ESeg → Res → Gen Res
 /-- `Processor.get_nodes(path, mustexist=True)` on a document. -/
 def getRequired (segs : List ESeg) (d : Node) : Gen Res :=
   if d.evIsNull then Gen.nil else
-  let g := required mt dsc segs (.real (d, Ctx.root))
+  let g := required mt dsc d segs (.real (d, Ctx.root))
   Gen.append g (if g.1.isEmpty then Gen.fail (.ypath .unmatched) else Gen.nil)
 
 /-- `Processor.exists(path)` -/
 def existsQ (segs : List ESeg) (d : Node) : Except Err Bool :=
   if d.evIsNull then .ok false else
-  match (required mt dsc segs (.real (d, Ctx.root))).collapse with
+  match (required mt dsc d segs (.real (d, Ctx.root))).collapse with
   | .ok l => .ok (!l.isEmpty)
   | .error e => .error e
 
 /-- `Processor.get_nodes(path, mustexist=False)` on a document (read behaviour). -/
 def getOptional (segs : List ESeg) (d : Node) : Gen Res :=
-  if d.evIsNull then Gen.nil else optional mt dsc segs (.real (d, Ctx.root))
+  if d.evIsNull then Gen.nil else optional mt dsc d segs (.real (d, Ctx.root))
 
 end Eval
 
@@ -583,10 +668,32 @@ def Desc.none : Desc := fun _ _ _ => Gen.fail .outOfModel
 /-- The descendant evaluation given a reading of attribute texts as segments:
 `YAMLPath(attr)` parsed, then `_get_required_nodes` (searches nested inside an attribute path are
 outside the model). -/
-def Desc.ofParser (mt : Matcher) (parseAttr : Str → Except Err (List ESeg)) : Desc :=
+def Desc.ofParser (mt : Matcher) (rt : Node) (parseAttr : Str → Except Err (List ESeg)) : Desc :=
   fun attr n c =>
     match parseAttr attr with
-    | .ok segs => Eval.required mt Desc.none segs (.real (n, c))
+    | .ok segs => Eval.required mt Desc.none rt segs (.real (n, c))
     | .error e => Gen.fail e
+
+
+/-! ## The matcher of the comparison model -/
+namespace W1
+
+/-- `Searches.search_matches(method, term, haystack)` by the comparison model of
+`Model/Compare.lean` for a scalar haystack (a key or set member arrives as an unanchored scalar
+node; an anchor does not take part in the comparison).  `orc` is an explicit oracle for what that
+model does not cover: container haystacks (the code compares their Python `str()`, which is not
+modelled) and scalars / terms in the fenced literal classes (`Typed.unmodelled`). -/
+def mtCompare (rx : Str → Str → Option Bool) (orc : Matcher) : Matcher := fun m n t =>
+  match n with
+  | .scalar _ v =>
+    match searchMatches rx m v t with
+    | .error .outOfModel => orc m n t
+    | r => r
+  | _ => orc m n t
+
+/-- No oracle: everything outside the comparison model is `outOfModel`. -/
+def noOracle : Matcher := fun _ _ _ => .error .outOfModel
+
+end W1
 
 end Ypv
